@@ -51,7 +51,60 @@ def strip_comments(name, text):
     return out
 
 
+# libraries of other shapes: no function at all (no bind(C) interface), only nested namespaces, only classes
+SHAPES = {
+    "types_only": """library: doc
+cxx_header: doc.hpp
+options:
+%s
+declarations:
+- decl: enum Color { RED, BLUE }
+- decl: struct Pt { int x; double y; }
+- decl: typedef int IndexType
+""",
+    "namespaces_only": """library: doc
+cxx_header: doc.hpp
+options:
+%s
+declarations:
+- decl: namespace outer
+  declarations:
+  - decl: void deep(int a)
+  - decl: enum Mode { OFF, ON }
+""",
+    "classes_only": """library: doc
+cxx_header: doc.hpp
+options:
+%s
+declarations:
+- decl: class Only
+  declarations:
+  - decl: Only()
+  - decl: int get()
+""",
+}
+_SHAPE = [None]
+
+
 def run(opts, brief, ret, perdecl, write_version):
+    from shroud import main as M
+    if _SHAPE[0]:
+        optlines = "\n".join("  %s: %s" % (k, "true" if v else "false") for k, v in sorted(opts.items())) or "  wrap_c: true"
+        return run_text(SHAPES[_SHAPE[0]] % optlines, write_version)
+    return run_std(opts, brief, ret, perdecl, write_version)
+
+
+def run_text(text, write_version):
+    global YAML
+    saved = YAML
+    YAML = text.replace("%", "%%") + "%.0s%.0s%.0s%.0s"
+    try:
+        return run_std({}, "", "", "", write_version, raw=True)
+    finally:
+        YAML = saved
+
+
+def run_std(opts, brief, ret, perdecl, write_version, raw=False):
     from shroud import main as M
     d = tempfile.mkdtemp(prefix="mdoc_")
     try:
@@ -80,6 +133,14 @@ def run(opts, brief, ret, perdecl, write_version):
 
 
 def check(inp):
+    _SHAPE[0] = inp.get("shape")
+    try:
+        return check1(inp)
+    finally:
+        _SHAPE[0] = None
+
+
+def check1(inp):
     base_opts = {"wrap_python": True, "wrap_lua": True}
     on = dict(base_opts)
     on.update(inp["opts"])
@@ -110,6 +171,9 @@ PERDECL = [
     # default arguments (generated overloads) and a struct
     ["- decl: int scale(int a, int b = 1, double c = 2.0)\n", "- decl: struct Pt { int x; double y; }\n",
      "- decl: double norm(const Pt *p)\n"],
+    # a callback whose declaration is longer than a line (the debug comment that repeats it must stay a comment)
+    ["- decl: void on_event(void (*handler)(int event_code, double timestamp +value, const char * message, int severity_level +value, void * user_data))\n",
+     "- decl: int plain2(int a)\n"],
     # fortran_generic and a function returning a string
     ["- decl: void gen(double arg)\n  fortran_generic:\n  - decl: (float arg)\n  - decl: (double arg)\n",
      "- decl: const std::string& title()\n"],
@@ -144,6 +208,9 @@ def candidates(seed, around=None):
     yield {"opts": {"debug": True, "doxygen": True, "show_splicer_comments": True}}
     for c in perdecl_candidates():
         yield c
+    for shape in sorted(SHAPES):
+        for n in names:
+            yield {"opts": {n: True}, "shape": shape}
     for r in range(2, 5):
         for c in itertools.combinations(names, r):
             yield {"opts": dict((k, True) for k in c)}
